@@ -266,6 +266,22 @@ impl<Word: BitArray, State: BitArray, const PRECISION: usize>
         self.compressed.get() == Word::one()
     }
 
+    /// Verification hook (only with `--cfg constriction_verif`): the raw head registers
+    /// `(compressed, remainders)`.
+    #[cfg(constriction_verif)]
+    pub fn verif_parts(self) -> (Word, State) {
+        (self.compressed.get(), self.remainders)
+    }
+
+    /// Verification hook (only with `--cfg constriction_verif`): heads from raw registers.
+    #[cfg(constriction_verif)]
+    pub fn verif_from_parts(compressed: Word::NonZero, remainders: State) -> Self {
+        Self {
+            compressed,
+            remainders,
+        }
+    }
+
     /// Private on purpose.
     fn new<B: ReadWords<Word, Stack>>(
         source: &mut B,
@@ -543,6 +559,33 @@ where
     #[inline(always)]
     pub fn is_whole(&self) -> bool {
         self.heads.compressed.get() == Word::one()
+    }
+
+    /// Verification hook (only with `--cfg constriction_verif`): assembles a coder from its
+    /// two backends and raw heads, for single-step enumeration.
+    #[cfg(constriction_verif)]
+    pub fn verif_from_raw_parts(
+        compressed: CompressedBackend,
+        remainders: RemaindersBackend,
+        heads: ChainCoderHeads<Word, State, PRECISION>,
+    ) -> Self {
+        Self {
+            compressed,
+            remainders,
+            heads,
+        }
+    }
+
+    /// Verification hook (only with `--cfg constriction_verif`): disassembles a coder.
+    #[cfg(constriction_verif)]
+    pub fn verif_into_raw_parts(
+        self,
+    ) -> (
+        CompressedBackend,
+        RemaindersBackend,
+        ChainCoderHeads<Word, State, PRECISION>,
+    ) {
+        (self.compressed, self.remainders, self.heads)
     }
 
     pub fn encode_symbols_reverse<S, M, I>(
